@@ -38,7 +38,10 @@ SPEC = dict(
           "In client_segments the 101 response is additionally part of the fed bytes (response+stream in one read, response cut at "
           "7 positions, response + first k frames); in half of the client_wire/client_reuse/server_wire cases the first frames "
           "travel in the same write as the 101 response / the upgrade request and the peer then stays silent until their effects "
-          "are visible. client_reuse: ONE WebSocketClient object through 2-3 connections; each but the last carries a short valid exchange "
+          "are visible. limit_segments (and a sixth of the wire cases): a small configured maximum N in {125,126,127,1000,65535,65536,"
+          "70000} (server setMaxFrameSize / client Options::maxMessageSize) and a message of N-1, N or N+1 payload bytes, single "
+          "frame or reassembled, between two small messages, under all single cuts/byte-wise/multi-cuts: N-1 and N delivered, "
+          "N+1 refused, for every segmentation. client_reuse: ONE WebSocketClient object through 2-3 connections; each but the last carries a short valid exchange "
           "and ends by {oversized header 1009, malformed header 1002, invalid UTF-8 1007, client sendClose, client "
           "disconnect(), peer close, TCP reset idle, TCP reset inside a frame of a fragmented message}; the last carries the "
           "client_wire exchange under the unchanged oracles; every case non-trivial, distinct by hash(endings, wire, plan). "
@@ -60,6 +63,7 @@ SPEC = dict(
             frame_roundtrip=P(1500, 10000, 4, 16),
             server_segments=P(200, 600, 4, 16),
             client_segments=P(200, 600, 4, 16),
+            limit_segments=P(300, 1500, 2, 8),
             server_wire=P(200, 2000, 2, 8, **_LOOP),
             client_wire=P(100, 1500, 2, 8, **_LOOP),
             client_reuse=P(100, 1000, 2, 8, **_LOOP),
